@@ -237,8 +237,21 @@ package service
 
 // Wrapped Ethereum transactions: RLP decoding, EIP-155 sender recovery and conversion are outside the subset
 // (reflection, secp256k1); the function only reads its arguments.
+// What IS under contract: the wrapped payload is accepted only if the whole of ExtraData is the encoding of one
+// Ethereum transaction - rlp.DecodeBytes refuses input with anything after the first value (trusted here, it is
+// the documented behaviour of that entry point; the streaming entry point rlp.Decode gives no such guarantee).
+//@ spec abstract fn ethDecodes(b Bytes) bool
+//@ func ext_rlpDecodeBytesEthTx
+//@   option trusted extern=com.tuntun.rangers/node/src/storage/rlp.DecodeBytes argtype=1:*eth_tx.Transaction
+//@   ensures (result == nil) == ethDecodes(old(bytes(arg0)))
+//@   modifies heap("eth_tx.Transaction"), heap("eth_tx.txdata")
+
 //@ func verifyETHTx
-//@   option trusted
+//@   property C07
+//@   requires txPoolLogger != nil
+//@   # (it only reads its arguments: the frame is assumed - decoding and sender recovery are outside the subset)
+//@   option frame=assumed
+//@   ensures [payload] result == nil ==> tx != nil && ethDecodes(hexBytes(old(tx.ExtraData)))
 //@   modifies nothing
 
 // A native transaction is admitted only if chain id, hash and signature all check out (and then it is).
